@@ -50,6 +50,10 @@ SUPPORT = {
 }
 
 
+# counting distributions whose smallest support value has positive probability for every admitted parameter
+ATTAINED_MIN = {'DistPoisson': 0, 'DistBinomial': 0, 'DistGeometric': 0, 'DistNegBinomial': 0, 'DistBernoulli': 0}
+
+
 def concrete_dists(prog):
     return [c for c in prog.subclasses('Distribution') if c not in BASES and prog.classes[c].module.name == 'distributions']
 
@@ -108,6 +112,17 @@ def r141(ctx, dists):
             if not ok:
                 dc, fn = ctx.prog.resolve(c, 'draw')
                 ctx.finding('R14.5', f'{c}.draw:range', dc, fn, f'draw() of {c} is only known to lie in {iv}; the documented support requires {desc}', where=f'{dc.name}.draw')
+            # the other half, for the counting distributions: the smallest value of the support carries probability mass (probability(0) > 0 for
+            # every admitted parameter), so it must be a possible result.  The analysed range over-approximates what draw() can return: a lower
+            # end above that value proves it is never drawn
+            if ok and c in ATTAINED_MIN and iv is not None and not iv.empty:
+                lo_ok = iv.lo <= ATTAINED_MIN[c]
+                ctx.ob('R14.5', f'{c}:minimum', lo_ok, sample=f'{c}.draw() in {iv}: the support minimum {ATTAINED_MIN[c]} is not excluded: {lo_ok}')
+                if not lo_ok:
+                    dc, fn = ctx.prog.resolve(c, 'draw')
+                    ctx.finding('R14.5', f'{c}.draw:minimum-never-drawn', dc, fn,
+                                f'draw() of {c} lies in {iv}: the value {ATTAINED_MIN[c]} is never returned although probability({ATTAINED_MIN[c]}) is positive for every '
+                                f'admitted parameter -- its whole mass goes to the neighbouring value (a loop that counts before it tests)', where=f'{dc.name}.draw')
     # order-fact based clamps: NormalTrunc in [lo, hi]; DiscreteUniform in [lo, hi]; Uniform >= lo
     prog = Program(ctx.prog, {'distributions', 'utils', 'streams'})
     for (c, lo_f, hi_f, need_hi) in (('DistNormalTrunc', '_lo', '_hi', True), ('DistDiscreteUniform', '_lo', '_hi', True), ('DistUniform', '_lo', '_hi', False),
